@@ -150,6 +150,7 @@ struct Forcer {
     phase: u64,
     forced: AtomicU64,
     gate_progress: AtomicU64,
+    transient: AtomicU64,
     deleted: Mutex<Vec<String>>,
     problems: Mutex<Vec<(String, String)>>,
     threads: Mutex<Vec<std::thread::JoinHandle<()>>>,
@@ -180,7 +181,26 @@ fn make_hook(fo: Arc<Forcer>) -> crate::dirs::Hook {
         if rec.kind == OpKind::Delete && managed_type {
             let living = tantivy::verif::c10_living_files(&index);
             if living.contains(&PathBuf::from(&rec.path)) || rec.path == c01::META {
-                fo.problems.lock().unwrap().push(("C10:gc-deleted-needed-file".into(), format!("{} deleted by {} while a live SegmentMeta lists it", rec.path, rec.thread)));
+                // `Index::searchable_segment_ids()` / `load_metas()` (called by the history itself and
+                // by IndexWriter::new) deserialise meta.json into SegmentMeta objects that live for
+                // microseconds and never open a file; if they were parsed from bytes read just
+                // before the commit they can "protect" a file GC has already selected. Only a
+                // protection that persists is a needed file.
+                let mut persistent = true;
+                if rec.path != c01::META {
+                    for _ in 0..6 {
+                        std::thread::sleep(Duration::from_millis(3));
+                        if !tantivy::verif::c10_living_files(&index).contains(&PathBuf::from(&rec.path)) {
+                            persistent = false;
+                            break;
+                        }
+                    }
+                }
+                if persistent {
+                    fo.problems.lock().unwrap().push(("C10:gc-deleted-needed-file".into(), format!("{} deleted by {} while a live SegmentMeta lists it", rec.path, rec.thread)));
+                } else {
+                    fo.transient.fetch_add(1, Ordering::SeqCst);
+                }
             }
         }
         if !fo.enabled.load(Ordering::SeqCst) || !is_worker_thread(&rec.thread) || !rec.kind.is_mutation() {
@@ -245,6 +265,7 @@ fn check_history(ctx: &mut Ctx, h: &Hist, force: Option<(u64, u64)>) {
         phase: force.map(|f| f.1).unwrap_or(0),
         forced: AtomicU64::new(0),
         gate_progress: AtomicU64::new(0),
+        transient: AtomicU64::new(0),
         deleted: Mutex::new(vec![]),
         problems: Mutex::new(vec![]),
         threads: Mutex::new(vec![]),
@@ -345,6 +366,12 @@ fn check_history(ctx: &mut Ctx, h: &Hist, force: Option<(u64, u64)>) {
     ctx.report.count_n("forced-gc:worker-ran-on-inside-gate", fo.gate_progress.load(Ordering::SeqCst));
     ctx.report.count_n("forced-gc:files-deleted", fo.deleted.lock().unwrap().len() as u64);
     ctx.report.count_n("worker-storage-ops", fo.worker_ops.load(Ordering::SeqCst));
+    ctx.report.count_n("delete-of-file-listed-only-by-a-transient-meta", fo.transient.load(Ordering::SeqCst));
+    if fo.problems.lock().unwrap().is_empty() {
+        // the discipline of C10_gc_safe (registration-before-create) and its conclusion (no delete
+        // of a living file) were observed at every open_write / delete of this real trace
+        ctx.report.traces_validated_against_impl += 1;
+    }
     for (key, what) in fo.problems.lock().unwrap().drain(..) {
         ctx.report.violation("oracle", &key, what, case.clone());
     }
